@@ -226,8 +226,18 @@ def parse_failure(text):
     m = VIOL_RE.search(text)
     where, what = (m.group(1), m.group(2)) if m else ("?", "?")
     vals = {}
-    for i, v in NDLOG_RE.findall(text):
-        vals[int(i)] = int(v)
+    seq = 0
+    for line in text.splitlines():
+        if "ND_LOG[" not in line or "]=" not in line:
+            continue
+        m = re.search(r"ND_LOG\[(.*)\]=(\d+)", line)
+        if not m:
+            continue
+        inner, v = m.group(1), int(m.group(2))
+        mi = re.fullmatch(r"\s*(\d+)u?l?\s*", inner) or re.search(r"/\*\s*(\d+)u?l?\s*\*/", inner)
+        idx = int(mi.group(1)) if mi else seq
+        vals[idx] = v
+        seq = idx + 1
     n = max(vals) + 1 if vals else 0
     values = [vals.get(i, 0) for i in range(n)]
     return {"location": where, "description": what.strip(), "values": values}
@@ -373,7 +383,7 @@ def replay(instance, values):
     for prof, exe in bins.items():
         try:
             p = subprocess.run([exe, instance, ",".join(str(v) for v in values)], capture_output=True,
-                               text=True, timeout=120)
+                               text=True, timeout=120, env=dict(os.environ, RUST_BACKTRACE="0"))
             rc, out = p.returncode, (p.stdout + p.stderr)[-1500:]
         except subprocess.TimeoutExpired:
             rc, out = "timeout", "native run did not finish in 120 s (hang)"
